@@ -131,8 +131,15 @@ def make(mix_index: int, maxlen: int, rate_limit: int, restart: bool):
 
             async def user() -> None:
                 await xknx.start()
-                if restart:
+                if restart is True:
                     await xknx.stop()
+                    await xknx.start()
+                if restart == 2:
+                    # a complete first session: one bus telegram, join, stop at once (inside the 1/r pause), then start again
+                    xknx.telegrams.put_nowait(Telegram(GA2, payload=GroupValueWrite(DPTBinary(0)), direction=TelegramDirection.OUTGOING))
+                    await xknx.join()
+                    await xknx.stop()
+                    result["first-session-stopped"] = loop.time()
                     await xknx.start()
                 for t in queued:
                     xknx.telegrams.put_nowait(t)
@@ -165,7 +172,8 @@ def make(mix_index: int, maxlen: int, rate_limit: int, restart: bool):
                 viols.append(("interface-order-or-content-wrong", f"interface saw {seen_main}, queue order {want_tags}; {ctxs}"))
             if any(isinstance(c["dst"], InternalGroupAddress) for c in iface_calls):
                 viols.append(("internal-telegram-reached-interface", ctxs))
-            for a, b in zip(iface_calls, iface_calls[1:]):
+            session = iface_calls[1:] if restart == 2 else iface_calls  # spacing is required within one start..stop session
+            for a, b in zip(session, session[1:]):
                 if b["start"] < a.get("end", 1e18) - 1e-9:
                     viols.append(("two-sends-in-flight", f"{a} overlaps {b}; {ctxs}"))
                 if rate_limit and b["start"] - a["start"] < 1 / rate_limit - 1e-9:
@@ -198,7 +206,7 @@ def run(ctx: Ctx) -> None:
     n = len(mixes(maxlen))
     ctx.rule = (
         f"real XKNX (start/join/stop, TelegramQueue, devices, callbacks) over a fake interface: ALL {n} telegram mixes of length <= {maxlen} over {KINDS} x rate limit {{0, 20}} (+ a start-stop-start "
-        f"variant) x stop mode {STOP}; per send_cemi the interface outcome is one of {SEND}; every schedule with <= {bound} non-default outcomes; a raising callback, a raising device, a "
+        f"variant and a variant with a complete first session - send, join, stop inside the rate-limit pause - before the explored one) x stop mode {STOP}; per send_cemi the interface outcome is one of {SEND}; every schedule with <= {bound} non-default outcomes; a raising callback, a raising device, a "
         "mismatching GA-DPT entry and a callback that queues a follow-up telegram are always present. Oracle: interface order = queue order, never two sends in flight, >= 1/r apart, internal "
         "telegrams never reach the interface but their device, callbacks/devices still run after a raising one, every telegram marked done, join() and stop() return within 120 s of virtual time"
     )
@@ -208,6 +216,8 @@ def run(ctx: Ctx) -> None:
             explore(ctx, __name__, "queue", (mi, maxlen, rl, False), bound=bound if len(mixes(maxlen)[mi]) <= 2 or ctx.thorough else 1, split_depth=1)
     for mi in range(min(n, 20)):
         explore(ctx, __name__, "queue", (mi, maxlen, 0, True), bound=1, split_depth=1)
+        explore(ctx, __name__, "queue", (mi, maxlen, 20, 2), bound=1, split_depth=1)
+        explore(ctx, __name__, "queue", (mi, maxlen, 0, 2), bound=1, split_depth=1)
     finalize_states(ctx)
 
 
